@@ -210,7 +210,7 @@ def multichannel_table_agrees(repo, col):
     voxels equals the number of fields every accepted structured type has."""
     rule = "E-TABLE.multichannel"
     dt = repo.module("data_types")
-    tab = dt.constants.get("NG_MULTICHANNEL_DATATYPES")
+    tab = dt.const("NG_MULTICHANNEL_DATATYPES")
     lens = None
     if isinstance(tab, (ast.Tuple, ast.List)) and all(
             isinstance(e, (ast.Tuple, ast.List)) for e in tab.elts):
@@ -467,3 +467,366 @@ def all_in_one_info_edits(repo, col):
             "command only: the stages then see a different info than in the "
             "step-by-step pipeline" % norm(edits[0][1])[:60],
             node=edits[0][1] if edits else None)
+
+
+# ---------------------------------------------------------------------
+_FMT_RE = None
+
+
+def little_endian_literals(repo, col, shorts):
+    """Every binary format this package reads or writes (precomputed chunks,
+    compressed_segmentation, sharded indices, precomputed meshes) is
+    little-endian.  A struct format or dtype literal with an explicit
+    big-endian / network byte order in those modules is wrong for all of
+    them."""
+    import re
+    rule = "E-SPEC.little-endian"
+    pat = re.compile(r"^[>!][0-9]*[A-Za-z][A-Za-z0-9]*$")
+    hits = []
+    n = 0
+    for ms in shorts:
+        if ms not in ("_compressed_segmentation", "chunk_encoding", "mesh",
+                      "sharded_base", "sharded_file_accessor",
+                      "sharded_http_accessor", "volume_reader", "data_types",
+                      "scripts.slices_to_precomputed",
+                      "scripts.convert_chunks"):
+            continue
+        m = repo.module(ms)
+        for node in ast.walk(m.tree):
+            if isinstance(node, ast.Constant) and isinstance(node.value, str) \
+                    and 2 <= len(node.value) <= 8:
+                if re.match(r"^[<>!=@][0-9]*[A-Za-z][A-Za-z0-9]*$",
+                            node.value):
+                    n += 1
+                if pat.match(node.value):
+                    hits.append((m, node))
+            # .newbyteorder('>') / byteorder='big'
+            if isinstance(node, ast.Call) and isinstance(
+                    node.func, ast.Attribute) and \
+                    node.func.attr == "newbyteorder" and node.args and \
+                    isinstance(node.args[0], ast.Constant) and \
+                    node.args[0].value in (">", "B", "big"):
+                hits.append((m, node))
+            if isinstance(node, ast.keyword) and node.arg == "byteorder" and \
+                    isinstance(node.value, ast.Constant) and \
+                    node.value.value == "big":
+                hits.append((m, node))
+    if not n and not hits:
+        return
+    ok = not hits
+    col.add(rule, "%s:module" % (hits[0][0].short if hits else shorts[0]),
+            "%d byte-order literals, none big-endian" % n, ok, "" if ok else
+            "big-endian / network byte order literal %s in a little-endian "
+            "format codec" % norm(hits[0][1])[:30],
+            loc="%s:%d" % (hits[0][0].relpath, hits[0][1].lineno)
+            if hits else "", nontrivial=False)
+
+
+# ---------------------------------------------------------------------
+SINK_ATTRS = {"write", "store_chunk", "store_file", "store_cmc_chunk",
+              "append", "extend", "writelines", "send", "sendall",
+              "write_chunk"}
+
+
+def _payload_sinks(fn, param, depth=0):
+    """CFG nodes of fn at which a value derived from `param` is handed on:
+    passed to a writing / storing method, to a local helper that itself hands
+    it on on every path, stored into a container item or appended to an
+    attribute."""
+    from .dataflow import local_defs as _ld
+    defs = _ld(fn.node)
+    derived = {param}
+    changed = True
+    while changed:
+        changed = False
+        for nm, ds in defs.items():
+            if nm in derived:
+                continue
+            for d in ds:
+                if d.value is not None and names_in(d.value) & derived:
+                    derived.add(nm)
+                    changed = True
+    cfg = fn.cfg()
+    owner = enclosing_stmt_map(fn.node)
+    out = []
+
+    def mentions(e):
+        return bool(names_in(e) & derived)
+    for st in stmts_of(fn.node):
+        hit = False
+        if isinstance(st, ast.AugAssign) and mentions(st.value) and \
+                isinstance(st.target, (ast.Attribute, ast.Subscript)):
+            hit = True
+        if isinstance(st, ast.Assign) and mentions(st.value) and any(
+                isinstance(t, ast.Subscript) for t in st.targets):
+            hit = True
+        n = cfg.node_of(st)
+        if hit and n is not None:
+            out.append(n)
+    for c in calls_in(fn.node):
+        args = list(c.args) + [k.value for k in c.keywords]
+        if not any(mentions(a) for a in args):
+            continue
+        hit = isinstance(c.func, ast.Attribute) and c.func.attr in SINK_ATTRS
+        if not hit and depth < 3:
+            h = resolve_local_call(fn, c)
+            if h is not None and h is not fn:
+                hp = list(h.params)
+                if hp and hp[0] in ("self", "cls") and isinstance(
+                        c.func, ast.Attribute):
+                    hp = hp[1:]
+                for i, a in enumerate(c.args):
+                    if mentions(a) and i < len(hp):
+                        hs = _payload_sinks(h, hp[i], depth + 1)
+                        hcfg = h.cfg()
+                        if hs and hcfg.every_path_passes(hcfg.entry,
+                                                         hcfg.exit, hs):
+                            hit = True
+        if hit:
+            st = owner.get(id(c))
+            n = cfg.node_of(st) if st is not None else None
+            if n is not None:
+                out.append(n)
+    return out
+
+
+STORE_CHAIN = [
+    ("file_accessor", "FileAccessor.store_file", 1),
+    ("file_accessor", "FileAccessor.store_chunk", 0),
+    ("precomputed_io", "PrecomputedIO.write_chunk", 0),
+    ("sharded_file_accessor", "ShardedFileAccessor.store_chunk", 0),
+    ("sharded_file_accessor", "ShardedFileAccessor.store_file", 1),
+    ("sharded_base", "ShardedScaleBase.store_chunk", 0),
+    ("sharded_file_accessor", "Shard.store_cmc_chunk", 0),
+    ("sharded_file_accessor", "MiniShard.store_cmc_chunk", 0),
+    ("sharded_file_accessor", "MiniShard.append", 0),
+]
+
+
+def payload_reaches_storage(repo, col, only=None):
+    """C12/C03/C05/...: a store operation that returns normally has handed
+    its payload on - to a write, to the next layer's store, into the reorder
+    buffer - on every path.  (A path that returns without doing so drops the
+    data silently.)"""
+    rule = "E-ORDER.payload-stored"
+    n = 0
+    for ms, qn, pos in STORE_CHAIN:
+        if only is not None and ms not in only:
+            continue
+        if not repo.has_func(ms, qn):
+            continue
+        fn = repo.func(ms, qn)
+        params = [p_ for p_ in fn.params if p_ not in ("self", "cls")]
+        if pos >= len(params):
+            continue
+        pname = params[pos]
+        sinks = _payload_sinks(fn, pname)
+        cfg = fn.cfg()
+        n += 1
+        if not sinks:
+            col.add(rule, fn, "%s handed on" % pname, True, "no write / store "
+                    "/ append of `%s` recognised in %s" % (pname, fn.key),
+                    undecided=True)
+            continue
+        ok = cfg.every_path_passes(cfg.entry, cfg.exit, sinks)
+        path = None
+        if not ok:
+            p_ = cfg.path(cfg.entry, cfg.exit, avoiding=sinks)
+            path = [norm(x.ast)[:50] if x.ast is not None else x.label
+                    for x in (p_ or [])]
+        col.add(rule, fn, "%s handed on on every normal path" % pname, ok,
+                "" if ok else "a path returns normally without writing / "
+                "storing / queuing `%s`: the data is dropped while the call "
+                "reports success" % pname, path=path)
+    return n
+
+
+# ---------------------------------------------------------------------
+def _tests_enclosing(fnode, target):
+    """[(test, truth)] of the if-statements enclosing `target` statement or
+    expression owner."""
+    found = []
+
+    def visit(stmts, ctx):
+        for st in stmts:
+            if st is target:
+                found.append(list(ctx))
+                return True
+            if isinstance(st, ast.If):
+                if visit(st.body, ctx + [(st.test, True)]) or \
+                        visit(st.orelse, ctx + [(st.test, False)]):
+                    return True
+            elif not isinstance(st, (ast.FunctionDef, ast.AsyncFunctionDef,
+                                     ast.ClassDef)):
+                for field in ("body", "orelse", "finalbody"):
+                    sub = getattr(st, field, None)
+                    if isinstance(sub, list) and sub and \
+                            isinstance(sub[0], ast.stmt) and visit(sub, ctx):
+                        return True
+                for h in getattr(st, "handlers", []) or []:
+                    if visit(h.body, ctx):
+                        return True
+        return False
+    visit(fnode.body, [])
+    return found[0] if found else None
+
+
+def gzip_branch_polarity(repo, col):
+    """C12: bytes go through gzip (to <name>.gz) exactly when compression is
+    on and the MIME type is not exempt; the plain write is the other arm."""
+    rule = "E-SIB.store.gzip-branch"
+    from .core import inline_view
+    for mname in ("store_file", "store_chunk"):
+        fn = repo.func("file_accessor", "FileAccessor." + mname, inline=True)
+        owner = enclosing_stmt_map(fn.node)
+        n = 0
+        for c in calls_in(fn.node):
+            nm = fn.module.resolve(call_name(c) or "") or ""
+            is_gz = nm == "gzip.open"
+            is_plain = (isinstance(c.func, ast.Attribute)
+                        and c.func.attr == "open" and nm != "gzip.open") \
+                or nm == "open"
+            if not (is_gz or is_plain):
+                continue
+            st = owner.get(id(c))
+            ctx = _tests_enclosing(fn.node, st) if st is not None else None
+            if ctx is None:
+                continue
+            rel = [(t, tr) for t, tr in ctx if "gzip" in norm(t)
+                   or "NO_COMPRESS" in norm(t)]
+            if not rel:
+                continue
+            n += 1
+            t, tr = rel[-1]
+            atoms = holds(t, tr)
+            # positive form: self.gzip truthy and mime not in exempt set
+            says_compress = any(a.op == "truthy" and "gzip" in norm(a.left)
+                                for a in atoms) and any(
+                a.op == "not in" and "NO_COMPRESS" in norm(a.right)
+                for a in atoms)
+            says_plain_possible = not says_compress
+            ok = says_compress if is_gz else says_plain_possible
+            col.add(rule, fn, "%s under %s`%s`" % (
+                "gzip.open" if is_gz else "plain open",
+                "" if tr else "not ", norm(t)[:50]), ok, "" if ok else
+                ("the gzip writer is used on the arm where compression is "
+                 "off or the MIME type is exempt" if is_gz else
+                 "the plain writer is used on the arm where compression "
+                 "applies: files land under the wrong name / encoding"),
+                node=c)
+        if n == 0:
+            col.add(rule, fn, "gzip / plain arms", True, "write arms not "
+                    "under a test on self.gzip / NO_COMPRESS_MIME_TYPES",
+                    undecided=True)
+
+
+# ---------------------------------------------------------------------
+def legacy_suffix_polarity(repo, col):
+    """C14: a legacy shard is split in <n>.index (offsets below the index
+    length) and <n>.data (the rest); a modern one is <n>.shard.  The suffix
+    chosen for a read must sit on the matching arm."""
+    rule = "E-EXC.B.http.legacy-suffix"
+    for ms, qn in (("sharded_http_accessor", "HttpShard.read_bytes"),
+                   ("sharded_file_accessor", "Shard.read_bytes")):
+        if not repo.has_func(ms, qn):
+            continue
+        fn = repo.func(ms, qn)
+        n = 0
+        for h in helper_closure(fn):
+            owner = enclosing_stmt_map(h.node)
+            for node in walk_local(h.node):
+                if not (isinstance(node, ast.Constant) and
+                        node.value in (".index", ".data", ".shard")):
+                    continue
+                st = owner.get(id(node))
+                ctx = _tests_enclosing(h.node, st) if st is not None else None
+                if ctx is None:
+                    continue
+                n += 1
+                legacy = None
+                below = None
+                for t, tr in ctx:
+                    for a in holds(t, tr):
+                        for b in (a, a.flipped()):
+                            if "is_legacy" in norm(b.left) and \
+                                    b.op in ("truthy", "falsy"):
+                                legacy = b.op == "truthy"
+                            if "header_byte_length" in norm(b.right) and \
+                                    b.op in ("<", ">="):
+                                below = b.op == "<"
+                want = {".shard": (False, None), ".index": (True, True),
+                        ".data": (True, False)}[node.value]
+                bad = (legacy is not None and want[0] != legacy) or (
+                    below is not None and want[1] is not None
+                    and want[1] != below)
+                und = not bad and legacy is None
+                col.add(rule, h, "%s under legacy=%s below-index=%s"
+                        % (node.value, legacy, below), not bad,
+                        "" if not bad else "suffix %s is chosen on the wrong "
+                        "arm (legacy=%s, offset below index length=%s): the "
+                        "bytes are read from the wrong file"
+                        % (node.value, legacy, below), node=node,
+                        undecided=und)
+        if n == 0:
+            col.add(rule, fn, "suffix arms", True, "file suffixes not found "
+                    "under tests", undecided=True)
+
+
+# ---------------------------------------------------------------------
+def downscaler_dispatch(repo, col):
+    """C06/C07: the method name selects the documented downscaler class, and
+    an outside value selects constant padding (none selects edge padding)."""
+    rule = "E-SIB.tables.downscaler"
+    fn = repo.func("downscaling", "get_downscaler")
+    want = {"stride": "StridingDownscaler", "average": "AveragingDownscaler",
+            "majority": "MajorityDownscaler"}
+    owner = enclosing_stmt_map(fn.node)
+    seen = 0
+    for c in calls_in(fn.node):
+        nm = call_name(c) or ""
+        if nm not in want.values():
+            continue
+        st = owner.get(id(c))
+        ctx = _tests_enclosing(fn.node, st) if st is not None else None
+        if not ctx:
+            continue
+        method = None
+        for t, tr in ctx:
+            for a in holds(t, tr):
+                for b in (a, a.flipped()):
+                    if b.op == "==" and isinstance(b.right, ast.Constant) \
+                            and b.right.value in want:
+                        method = b.right.value
+        if method is None:
+            continue
+        seen += 1
+        ok = want[method] == nm
+        col.add(rule, fn, "%s -> %s" % (method, nm), ok, "" if ok else
+                "downscaling method %r constructs %s (documented: %s)"
+                % (method, nm, want[method]), node=c)
+    if seen == 0:
+        col.add(rule, fn, "method -> class", True, "dispatch not in an "
+                "if/elif on the method name", undecided=True)
+    ini = repo.func("downscaling", "AveragingDownscaler.__init__")
+    owner = enclosing_stmt_map(ini.node)
+    for node in walk_local(ini.node):
+        if isinstance(node, ast.Constant) and node.value in ("edge",
+                                                             "constant"):
+            st = owner.get(id(node))
+            ctx = _tests_enclosing(ini.node, st) if st is not None else None
+            if not ctx:
+                continue
+            is_none = None
+            for t, tr in ctx:
+                for a in holds(t, tr):
+                    if a.op in ("is", "is not") and norm(a.right) == "None" \
+                            and "outside" in norm(a.left):
+                        is_none = a.op == "is"
+            if is_none is None:
+                continue
+            ok = (node.value == "edge") == is_none
+            col.add(rule, ini, "padding %r when outside value is %s"
+                    % (node.value, "None" if is_none else "given"), ok,
+                    "" if ok else "padding mode %r is selected when the "
+                    "outside value is %s" % (node.value, "absent" if is_none
+                                             else "given"), node=node)
